@@ -82,10 +82,9 @@ Proof.
   rewrite !rev_app_distr, !rev_involutive. cbn [rev app]. rewrite <- !app_assoc. reflexivity.
 Qed.
 
-(* tie to the source (Gen/Lexer.v is regenerated from /repo on every run): the positions kept absolute are the ones modelled, and
-   the pattern that delimits a call allows two levels of nested parentheses *)
-Require Import PX.Gen.Lexer.
+(* tie to the source (Gen/Lexer.v is regenerated from /repo on every run): the positions kept absolute are the ones modelled, and the
+   keyword that opens a call is the one Model/FindCalls.v looks for *)
+Require Import PX.Gen.Lexer PX.Model.FindCalls.
 Lemma indexed_repeat_constants_pinned :
-  INDEXED_REPEAT_ABSOLUTE_ARGS = ABSOLUTE_ARG_POSITIONS /\
-  RE_INDEXED_REPEAT_PATTERN = [105;110;100;101;120;101;100;45;114;101;112;101;97;116;92;40;40;63;58;91;94;40;41;93;124;92;40;40;63;58;91;94;40;41;93;124;92;40;91;94;40;41;93;42;92;41;41;42;92;41;41;43;92;41].
+  INDEXED_REPEAT_ABSOLUTE_ARGS = ABSOLUTE_ARG_POSITIONS /\ INDEXED_REPEAT_CALL = KW.
 Proof. split; reflexivity. Qed.
